@@ -25,6 +25,7 @@ ASSUMPTIONS = ["node iterable yields distinct hashable labels",
                "Louvain objective compared with the exact modularity to 1e-9*(1+|Q|); for an edgeless graph (modularity "
                "undefined) only the partition is checked",
                "pagerank_edges only on 0..n-1 graphs whose arcs stay inside range(n)"]
+QUICK_SCALE = 1.5  # quick-tier multiplier (idle 16-core timing: ~10 s at scale 1)
 STRATA = [
     ("sym-random", 2000, 24000),
     ("asym-random", 3000, 36000),
